@@ -2,7 +2,8 @@
    Property theorems only; every proof is `exact <lemma>`; Print Assumptions under each. *)
 From Coq Require Import List ZArith NArith Bool Lia.
 Import ListNotations.
-Require Import Pyrefact.Base Pyrefact.SpanModel Pyrefact.SpanProofs.
+Require Import Pyrefact.Base Pyrefact.SpanModel Pyrefact.SpanProofs Pyrefact.SpanIgnoreBridge.
+Require Pyrefact.IgnoreModel.
 Open Scope Z_scope.
 
 (* T13.1 Match line/column: for EVERY source and every offset p inside it, the reported line is
@@ -139,12 +140,65 @@ Theorem R13_3_old_arithmetic_partial :
 Proof. exact v0_agrees_when_plain. Qed.
 Print Assumptions R13_3_old_arithmetic_partial.
 
-(* has_ignore_comment is monotone in the range *)
+(* T13.5 has_ignore_comment and the range.  `coms` is the verdict of CPython's tokenizer (the zero-based lines that
+   carry a matching COMMENT token; None = tokenize raised), an input of the model.
+   a) monotone in the range as long as the inner range is not an insertion point *)
 Theorem T13_5_ignore_monotone :
-  forall s a b a' b', a' <= a -> b <= b' ->
-    has_ignore_comment s (a, b) = true -> has_ignore_comment s (a', b') = true.
+  forall s coms a b a' b', a <> b -> a' <= a -> b <= b' ->
+    has_ignore_comment s coms (a, b) = true -> has_ignore_comment s coms (a', b') = true.
 Proof. exact has_ignore_mono. Qed.
 Print Assumptions T13_5_ignore_monotone.
+
+(* b) the unguarded statement (true of the recogniser before repair 8992e08) fails for an insertion at the
+   first column of an ignored line: "x<LF># pyrefact: ignore", point 2, range (0, 2) *)
+Theorem T13_5_ignore_monotone_any_refuted :
+  exists s coms a b a' b', a' <= a /\ b <= b'
+    /\ has_ignore_comment s coms (a, b) = true /\ has_ignore_comment s coms (a', b') = false.
+Proof. exact has_ignore_mono_any_refuted. Qed.
+Print Assumptions T13_5_ignore_monotone_any_refuted.
+
+Theorem R13_5_old_recogniser_monotone :
+  forall s a b a' b', a' <= a -> b <= b' ->
+    has_ignore_comment_v0 s (a, b) = true -> has_ignore_comment_v0 s (a', b') = true.
+Proof. exact has_ignore_v0_mono. Qed.
+Print Assumptions R13_5_old_recogniser_monotone.
+
+(* c) a refused insertion point p is also refused as part of every non-empty range that contains the character
+   at p -- at the end of the text (the end of an unterminated last line) the character before p *)
+Theorem T13_5_insertion_caught_by_containing_range :
+  forall s coms p a' b',
+    a' <= p -> p <= b' -> a' < b' ->
+    (if p <? len s then p <? b' else a' <? p) = true ->
+    has_ignore_comment s coms (p, p) = true -> has_ignore_comment s coms (a', b') = true.
+Proof. exact has_ignore_insertion_caught. Qed.
+Print Assumptions T13_5_insertion_caught_by_containing_range.
+
+(* d) exactly: inserting before the character at p is refused iff rewriting that character is *)
+Theorem T13_5_insertion_is_character :
+  forall s coms p, p < len s ->
+    has_ignore_comment s coms (p, p) = has_ignore_comment s coms (p, p + 1).
+Proof. exact has_ignore_insertion_is_char. Qed.
+Print Assumptions T13_5_insertion_is_character.
+
+(* e) nothing is touched by an insertion beyond the end of the text *)
+Theorem T13_5_insertion_beyond_end :
+  forall s coms p, len s < p -> has_ignore_comment s coms (p, p) = false.
+Proof. exact has_ignore_insertion_beyond. Qed.
+Print Assumptions T13_5_insertion_beyond_end.
+
+(* f) at the end of the text: refused iff there is no final line terminator and the last character is protected *)
+Theorem T13_5_insertion_at_end :
+  forall s coms,
+    has_ignore_comment s coms (len s, len s)
+    = negb (terminated s) && has_ignore_comment s coms (len s - 1, len s).
+Proof. exact has_ignore_insertion_at_end. Qed.
+Print Assumptions T13_5_insertion_at_end.
+
+(* g) the K3 model of has_ignore_comment and the independently written model of property C20 are the same function *)
+Theorem T13_5_same_as_C20_model :
+  forall s coms r, has_ignore_comment s coms r = Pyrefact.IgnoreModel.has_ignore s coms r.
+Proof. exact has_ignore_comment_same. Qed.
+Print Assumptions T13_5_same_as_C20_model.
 
 (* T13.4a findall is the list of Match.string of finditer, in order *)
 Theorem T13_4_findall_texts_of_finditer :
